@@ -1,6 +1,7 @@
 import Robust.Irc.Proofs.RcptApply
 import Robust.Irc.Proofs.RcptCheck
 import Robust.Irc.Proofs.RcptSrv
+import Robust.Irc.Proofs.RcptSvcAll
 /-!
 # C12 — messages reach exactly the entitled sessions under the sender's real identity
 
@@ -23,7 +24,8 @@ Vocabulary (`Robust/Irc/Proofs/Rcpt*.lean`):
                        stored client session has `ircPrefix = ⟨nick, username, "robust/0x" ++ hex id⟩`.
 
 Sections: 1 the six send helpers; 2 PRIVMSG/NOTICE; 3 JOIN/PART/KICK/TOPIC/MODE/INVITE; 4 NICK/QUIT/KILL;
-5 identity; 6 whole entries and histories.  Every theorem is followed by an `example` on a concrete state
+5 identity; 6 whole entries and histories; 7 the commands of services links (`server_…` handlers), per handler,
+the services part of the command table, whole entries and histories.  Every theorem is followed by an `example` on a concrete state
 (`exSt`: alice and Bob on `#c`, carol on no channel, dave on `#d`, one services link) showing that the
 hypotheses are satisfiable and that the outsiders are not among the recipients.
 -/
@@ -533,5 +535,355 @@ example : rcpts (processMessage exCtx (exEntry 3 "JOIN #c") (some ⟨none, "JOIN
 example : EntryOk exSt (exEntry 1 "privmsg #c :hello") := ⟨fun _ => rfl, fun h => by cases h⟩
 example : (exEntry 1 "x").type = 2 ∧ AMap.get exSt.sessions (exEntry 1 "x").session = some exAlice ∧
     exAlice.server = false := ⟨rfl, rfl, rfl⟩
+
+/-! ## 7. services links
+
+A services link (`Session.server = true`) speaks for its pseudo-clients (`NickServ`, `ChanServ`, …: sessions
+`⟨link, k⟩` with `k ≠ 0`, reached through the link's numeric id).  Its commands go to the `server_…` handlers of
+`SCmds.lean`.  For each of them every NEW line is
+
+* a numeric reply, delivered to the services links only (`o.rcpt = st.serverSessions`), or
+* a notification whose recipient set is given *exactly* (`RcptIs` / `ToOnly`), relative to the state `st` in which the
+  command starts:
+  JOIN / SVSJOIN → the joiner and the sessions listing the channel; PART / KICK / SVSPART / TOPIC / MODE / the INVITE
+  notice → the sessions listing the channel (KICK, SVSPART: plus the services links); INVITE, SVSMODE, the KILL line,
+  the implied TOPIC/NAMES answers of SVSJOIN → the one target session; SVSNICK → the renamed session, the sessions
+  sharing a channel with it and the services links; KILL's QUIT → the sessions sharing a channel with the victim and
+  the services links; QUIT → the sessions (still) sharing a channel with the pseudo-client that goes away.
+
+The constructors of the `Srv…Line` types (`RcptSrv.lean`, `RcptSvcA.lean`, `RcptSvcB.lean`, `RcptSvcC.lean`) are the
+precise statements. -/
+
+/-- the example state with two pseudo-clients of the link 9: ChanServ (`⟨9, 77⟩`, operator of `#c`) and NickServ
+(`⟨9, 78⟩`, on `#d`) -/
+def exChanServ : Session :=
+  { id := ⟨9, 77⟩, nick := "ChanServ", username := "services", channels := ["#c"]
+    ircPrefix := ⟨"ChanServ", "services", "robust/0x9"⟩ }
+def exNickServ : Session :=
+  { id := ⟨9, 78⟩, nick := "NickServ", username := "services", channels := ["#d"]
+    ircPrefix := ⟨"NickServ", "services", "robust/0x9"⟩ }
+def exChanC2 : Channel :=
+  { name := "#c", nicks := [("alice", { chanop := true }), ("bob", {}), ("chanserv", { chanop := true })],
+    modes := ['n', 't'] }
+def exChanD2 : Channel :=
+  { name := "#d", nicks := [("dave", { chanop := true }), ("nickserv", {})], modes := ['n', 't'] }
+def exSt2 : St :=
+  { sessions := [(⟨1, 0⟩, exAlice), (⟨2, 0⟩, exBob), (⟨3, 0⟩, exCarol), (⟨4, 0⟩, exDave), (⟨9, 0⟩, exServ),
+      (⟨9, 78⟩, exNickServ), (⟨9, 77⟩, exChanServ)]
+    nicks := [("alice", ⟨1, 0⟩), ("bob", ⟨2, 0⟩), ("carol", ⟨3, 0⟩), ("dave", ⟨4, 0⟩), ("chanserv", ⟨9, 77⟩),
+      ("nickserv", ⟨9, 78⟩)]
+    channels := [("#c", exChanC2), ("#d", exChanD2)]
+    serverSessions := [9] }
+def exCtx2 : Ctx := { st := exSt2, msgid := 7 }
+/-- the prefix a line of ChanServ carries -/
+def exCS : Option Prefix := some ⟨"ChanServ", "", ""⟩
+
+theorem exSt2_inv : GPInv exSt2 := ginv_of_ginvB (by decide)
+
+theorem exPre2 : Pre exCtx2 ⟨9, 0⟩ := ⟨exSt2_inv.ginv.inv, exSt2_inv.ginv.linv, ⟨exServ, rfl⟩, rfl⟩
+
+/-- **services JOIN** (several channels): 403/401 to the services links; the JOIN of the pseudo-client named by the
+prefix to exactly that pseudo-client and the sessions listing the channel -/
+theorem C12_services_join {c c' : Ctx} {sid : Id} {m : IrcMsg} {s : Session} (h : GPInv c.st) (h0 : sid.reply = 0)
+    (hs : AMap.get c.st.sessions sid = some s) (hr : cmdServerJoin c sid m = .ok c') :
+    NewOut (SrvJoinLine c.st m) c c' :=
+  cmdServerJoin_out (pre_of h h0 hs) h.ginv.ni hr
+
+/-- one channel of a services JOIN changes the membership relation by at most "the pseudo-client now lists it" -/
+theorem C12_services_join_membership {c c' : Ctx} {m : IrcMsg} {chn : String} (h : GPInv c.st)
+    (hr : serverJoinOne c m chn = .ok c') :
+    SameLists c.st c'.st ∨ ∃ pn tid, pfxName m = .ok pn ∧ AMap.get c.st.nicks (nickToLower pn) = some tid ∧
+      ∀ lc id, Lists c'.st lc id ↔ Lists c.st lc id ∨ (id = tid ∧ lc = chanToLower chn) :=
+  serverJoinOne_lists h.ginv.inv h.ginv.ni hr
+
+/-- **services PART**: 403/442 to the services links; the PART to exactly the sessions listing the channel -/
+theorem C12_services_part {c c' : Ctx} {sid : Id} {m : IrcMsg} {s : Session} (h : GPInv c.st) (h0 : sid.reply = 0)
+    (hs : AMap.get c.st.sessions sid = some s) (hr : cmdServerPart c sid m = .ok c') :
+    NewOut (SrvPartLine c.st m) c c' :=
+  cmdServerPart_out (pre_of h h0 hs) h.ginv.ni hr
+
+theorem C12_services_part_membership {c c' : Ctx} {m : IrcMsg} {chn : String} (h : GPInv c.st)
+    (hr : serverPartOne c m chn = .ok c') :
+    SameLists c.st c'.st ∨ ∃ pn tid, pfxName m = .ok pn ∧ AMap.get c.st.nicks (nickToLower pn) = some tid ∧
+      ∀ lc id, Lists c'.st lc id ↔ Lists c.st lc id ∧ ¬ (id = tid ∧ lc = chanToLower chn) :=
+  serverPartOne_lists h.ginv.inv h.ginv.ni hr
+
+/-- **services KICK**: 403/441 to the services links; the KICK to exactly the sessions listing the channel (the kicked
+one included) and the services links -/
+theorem C12_services_kick {c c' : Ctx} {sid : Id} {m : IrcMsg} (h : GPInv c.st)
+    (hr : cmdServerKick c sid m = .ok c') : NewOut (SrvKickLine c.st m) c c' :=
+  cmdServerKick_out h.ginv.inv h.ginv.ni hr
+
+theorem C12_services_kick_membership {c c' : Ctx} {sid : Id} {m : IrcMsg} (h : GPInv c.st)
+    (hr : cmdServerKick c sid m = .ok c') :
+    SameLists c.st c'.st ∨
+    ∃ chn target tid, m.params[0]? = some chn ∧ m.params[1]? = some target ∧
+      AMap.get c.st.nicks (nickToLower target) = some tid ∧
+      ∀ lc id, Lists c'.st lc id ↔ Lists c.st lc id ∧ ¬ (id = tid ∧ lc = chanToLower chn) :=
+  cmdServerKick_lists h.ginv.inv hr
+
+/-- **services MODE**: 403/441/472 to the services links; the MODE line to exactly the sessions listing the channel;
+membership unchanged -/
+theorem C12_services_mode {c c' : Ctx} {sid : Id} {m : IrcMsg} (h : GPInv c.st)
+    (hr : cmdServerMode c sid m = .ok c') : NewOut (SrvModeLine c.st m) c c' ∧ SameLists c.st c'.st :=
+  cmdServerMode_out h.ginv.inv h.ginv.ni hr
+
+/-- **services TOPIC**: 403 to the services links; the TOPIC line to exactly the sessions listing the channel -/
+theorem C12_services_topic {c c' : Ctx} {sid : Id} {m : IrcMsg} (h : GPInv c.st)
+    (hr : cmdServerTopic c sid m = .ok c') : NewOut (SrvTopicLine c.st m) c c' ∧ SameLists c.st c'.st :=
+  cmdServerTopic_out h.ginv.inv h.ginv.ni hr
+
+/-- **services INVITE**: 401/403/443/341 to the services links; the INVITE to the invited session only; the server
+NOTICE to exactly the sessions listing the channel -/
+theorem C12_services_invite {c c' : Ctx} {sid : Id} {m : IrcMsg} (h : GPInv c.st)
+    (hr : cmdServerInvite c sid m = .ok c') : NewOut (SrvInviteLine c.st m) c c' ∧ SameLists c.st c'.st :=
+  cmdServerInvite_out h.ginv.inv h.ginv.ni hr
+
+/-- **SVSJOIN**: 401/403 and the SJOIN to the services links; the JOIN (under the target's own prefix) to exactly
+the target and the sessions listing the channel; the implied TOPIC/NAMES answers to the target only -/
+theorem C12_services_svsjoin {c c' : Ctx} {sid : Id} {m : IrcMsg} {s : Session} (h : GPInv c.st) (h0 : sid.reply = 0)
+    (hs : AMap.get c.st.sessions sid = some s) (hr : cmdServerSvsjoin c sid m = .ok c') :
+    NewOut (SrvSvsjoinLine c.st m) c c' :=
+  cmdServerSvsjoin_out (pre_of h h0 hs) h.ginv.ni hr
+
+/-- **SVSPART**: 401/403/442 to the services links; the PART (under the target's own prefix) to exactly the sessions
+listing the channel and the services links -/
+theorem C12_services_svspart {c c' : Ctx} {sid : Id} {m : IrcMsg} (h : GPInv c.st)
+    (hr : cmdServerSvspart c sid m = .ok c') : NewOut (SrvSvspartLine c.st m) c c' :=
+  cmdServerSvspart_out h.ginv.inv h.ginv.ni hr
+
+theorem C12_services_svspart_membership {c c' : Ctx} {sid : Id} {m : IrcMsg} (h : GPInv c.st)
+    (hr : cmdServerSvspart c sid m = .ok c') :
+    SameLists c.st c'.st ∨
+    ∃ p0 chn tid, m.params[0]? = some p0 ∧ m.params[1]? = some chn ∧
+      AMap.get c.st.nicks (nickToLower p0) = some tid ∧
+      ∀ lc id, Lists c'.st lc id ↔ Lists c.st lc id ∧ ¬ (id = tid ∧ lc = chanToLower chn) :=
+  cmdServerSvspart_lists h.ginv.inv hr
+
+/-- **SVSNICK**: 432/401/433 to the services links; the NICK line (old prefix) to exactly the renamed session, the
+sessions sharing a channel with it, and the services links; membership unchanged -/
+theorem C12_services_svsnick {c c' : Ctx} {sid : Id} {m : IrcMsg} {s : Session} (h : GPInv c.st) (h0 : sid.reply = 0)
+    (hs : AMap.get c.st.sessions sid = some s) (hsrv : s.server = true)
+    (hr : cmdServerSvsnick c sid m = .ok c') : NewOut (SrvSvsnickLine c.st m) c c' ∧ SameLists c.st c'.st :=
+  cmdServerSvsnick_out (pre_of h h0 hs) h.ginv.ni hs hsrv hr
+
+/-- **SVSMODE**: 401/501 to the services links; the MODE line (under the link's prefix) to the target session only -/
+theorem C12_services_svsmode {c c' : Ctx} {sid : Id} {m : IrcMsg} {s : Session} (h : GPInv c.st)
+    (hs : AMap.get c.st.sessions sid = some s) (hr : cmdServerSvsmode c sid m = .ok c') :
+    NewOut (SrvSvsmodeLine c.st s m) c c' ∧ SameLists c.st c'.st :=
+  cmdServerSvsmode_out h.ginv.inv hs hr
+
+/-- **SVSHOLD** produces no line and touches neither sessions, nick index, channels nor the services links -/
+theorem C12_services_svshold {c c' : Ctx} {sid : Id} {m : IrcMsg} (hr : cmdServerSvshold c sid m = .ok c') :
+    c'.out = c.out ∧ c'.st.sessions = c.st.sessions ∧ c'.st.nicks = c.st.nicks ∧ c'.st.channels = c.st.channels ∧
+    c'.st.serverSessions = c.st.serverSessions :=
+  cmdServerSvshold_out hr
+
+/-- **services KILL**: 461/401 to the services links; the KILL line to the victim only; the victim's QUIT to exactly the
+sessions sharing a channel with the victim (itself included) and the services links; afterwards the sessions on a
+channel are the former members other than the victim -/
+theorem C12_services_kill {c c' : Ctx} {sid : Id} {m : IrcMsg} (h : GPInv c.st)
+    (hr : cmdServerKill c sid m = .ok c') :
+    NewOut (SrvKillLine c.st m) c c' ∧
+    (SameLists c.st c'.st ∨ ∃ p0 tid, m.params[0]? = some p0 ∧ AMap.get c.st.nicks (nickToLower p0) = some tid ∧
+      ∀ lc id, OnChan c'.st lc id ↔ Lists c.st lc id ∧ id ≠ tid) :=
+  cmdServerKill_out h.ginv.inv h.ginv.ni hr
+
+/-- **services QUIT**: with a prefix, the QUIT of that pseudo-client of the link goes to exactly the sessions sharing a
+channel with it; without a prefix (the link goes away, also on a `DeleteSession` entry for the link) the link and its
+pseudo-clients are removed in the order of their `reply` numbers, and the QUIT of each pseudo-client goes to exactly the
+sessions sharing a channel with it that have not been removed before it -/
+theorem C12_services_quit {c c' : Ctx} {sid : Id} {m : IrcMsg} {s : Session} (h : GPInv c.st) (h0 : sid.reply = 0)
+    (hs : AMap.get c.st.sessions sid = some s) (hsrv : s.server = true)
+    (hr : cmdServerQuit c sid m = .ok c') : NewOut (SrvQuitLine c.st sid m) c c' :=
+  cmdServerQuit_out (pre_of h h0 hs) h.ginv.ni hs hsrv hr
+
+/-- after a services QUIT: without prefix, the sessions still on a channel are the former members that do not belong to
+the link (the link and all its pseudo-clients are gone); with a prefix, nothing changed (no pseudo-client of the link
+carries that nickname) or exactly that pseudo-client is gone -/
+theorem C12_services_quit_membership {c c' : Ctx} {sid : Id} {m : IrcMsg} {s : Session} (h : GPInv c.st)
+    (h0 : sid.reply = 0) (hs : AMap.get c.st.sessions sid = some s) (hsrv : s.server = true)
+    (hr : cmdServerQuit c sid m = .ok c') :
+    (m.pfx = none → ∀ lc id, OnChan c'.st lc id ↔ Lists c.st lc id ∧ id.id ≠ sid.id) ∧
+    (∀ p, m.pfx = some p → SameLists c.st c'.st ∨
+      ∃ tid t, AMap.get c.st.sessions tid = some t ∧ tid.id = sid.id ∧ tid.reply ≠ 0 ∧
+        nickToLower t.nick = nickToLower p.name ∧
+        ∀ lc id, OnChan c'.st lc id ↔ Lists c.st lc id ∧ id ≠ tid) :=
+  (cmdServerQuit_spec (pre_of h h0 hs) h.ginv.ni hs hsrv hr).2
+
+/-- **services NICK** (introduction of a pseudo-client): every line is a numeric for the services links; nobody's
+memberships change (the new pseudo-client lists no channel) -/
+theorem C12_services_nick {c c' : Ctx} {sid : Id} {m : IrcMsg} (hr : cmdServerNick c sid m = .ok c') :
+    NewOut (fun o => o.rcpt = c.st.serverSessions) c c' ∧ c'.st.serverSessions = c.st.serverSessions ∧
+    (∀ lc id, Lists c.st lc id ↔ Lists c'.st lc id) :=
+  let h := cmdServerNick_out hr
+  ⟨h.1, h.2.1, fun lc id => ⟨h.2.2.1 lc id, h.2.2.2 lc id⟩⟩
+
+/-- **the services part of the command table**: whatever handler a `server_…` key selects for a services link, all its
+lines are classified by `ServiceLine` -/
+theorem C12_services_handlers {key cmd fname : String} {mp : Nat} {hd : Handler}
+    (hmem : (key, fname, mp, false) ∈ Gen.Commands.commands) (hkey : key = "server_" ++ cmd)
+    (hh : handlerByName fname = some hd)
+    {c c' : Ctx} {sid : Id} {m : IrcMsg} {s : Session} (h : GPInv c.st) (h0 : sid.reply = 0)
+    (hs : AMap.get c.st.sessions sid = some s) (hsrv : s.server = true)
+    (hr : hd c sid m = .ok c') : NewOut (ServiceLine c.st sid s m) c c' :=
+  services_handler_out hmem hkey hh (pre_of h h0 hs) h.ginv.ni hs hsrv hr
+
+/-- **every line of every services command.**  For an `IRCFromClient` entry `e` sent by a *services link* in a state
+satisfying the invariant: the handler runs in a state `stH` that equals the state before the entry up to bookkeeping
+fields of the link's session and that satisfies the invariant again; and every line of the entry's output batch is
+either for the link only (the gate's 421/461, a ban `ERROR`, `PONG`) or is classified by `ServiceLine stH …`, i.e. by
+the `Srv…Line` type of the handler the command table selects — each constructor of which fixes the exact recipient
+set.  (No conformance hypothesis is needed: a non-conforming line makes `applyEntry` panic, i.e. not return `.ok`.) -/
+theorem C12_entry_services {st st' : St} {e : Entry} {out : List Out} {s : Session}
+    (h : GPInv st) (he : EntryOk st e) (ht : e.type = 2)
+    (hs : AMap.get st.sessions e.session = some s) (hsrv : s.server = true)
+    (hr : applyEntry st e = .ok (st', out)) :
+    ∃ stH sH, StBk st stH e.session ∧ AMap.get stH.sessions e.session = some sH ∧ Session.Bk s sH ∧
+      GPInv stH ∧
+      ∀ o ∈ out, ToOnly e.session o ∨ ∃ m, parseMessage e.data = some m ∧ ServiceLine stH e.session sH m o :=
+  applyEntry_services_out h he ht hs hsrv hr
+
+/-- the same for a `DeleteSession` entry naming a services link: the server runs `QUIT :<reason>` *without prefix* for
+the link, so the only classified lines are those of `SrvQuitLine.all` -/
+theorem C12_entry_services_delete {st st' : St} {e : Entry} {out : List Out} {s : Session}
+    (h : GPInv st) (he : EntryOk st e) (ht : e.type = 1)
+    (hs : AMap.get st.sessions e.session = some s) (hsrv : s.server = true)
+    (hr : applyEntry st e = .ok (st', out)) :
+    ∃ stH sH, StBk st stH e.session ∧ AMap.get stH.sessions e.session = some sH ∧ Session.Bk s sH ∧
+      GPInv stH ∧
+      ∀ o ∈ out, ToOnly e.session o ∨
+        ∃ m, parseMessage ("QUIT :" ++ e.data) = some m ∧ ServiceLine stH e.session sH m o :=
+  applyEntry_services_delete_out h he ht hs hsrv hr
+
+/-- **protocol-conforming services entries are total and classified**: for a conforming entry (`Conforming` of
+`Entry.lean`: prefix present, documented number of parameters) of a services link, `applyEntry` does not panic, and if it
+returns (i.e. unless the model declines the input, e.g. a non-decimal TOPIC time) the classification applies -/
+theorem C12_entry_services_conforming {st : St} {e : Entry} {s : Session}
+    (h : GPInv st) (he : EntryOk st e) (hc : Conforming st e) (ht : e.type = 2)
+    (hs : AMap.get st.sessions e.session = some s) (hsrv : s.server = true) :
+    (∀ site, applyEntry st e ≠ .panic site) ∧
+    ∀ st' out, applyEntry st e = .ok (st', out) →
+      GPInv st' ∧
+      ∃ stH sH, StBk st stH e.session ∧ AMap.get stH.sessions e.session = some sH ∧ Session.Bk s sH ∧
+        GPInv stH ∧
+        ∀ o ∈ out, ToOnly e.session o ∨ ∃ m, parseMessage e.data = some m ∧ ServiceLine stH e.session sH m o :=
+  ⟨applyEntry_no_panic st e h.ginv he hc, fun st' out hr =>
+    ⟨applyEntry_preserves_gp st st' e out h he hr, C12_entry_services h he ht hs hsrv hr⟩⟩
+
+/-- **every session, client or services link**: the lines of an `IRCFromClient` entry are for the acting session only
+or classified by `ClientLine` (client) resp. `ServiceLine` (services link) -/
+theorem C12_entry_all {st st' : St} {e : Entry} {out : List Out} {s : Session}
+    (h : GPInv st) (he : EntryOk st e) (ht : e.type = 2)
+    (hs : AMap.get st.sessions e.session = some s)
+    (hr : applyEntry st e = .ok (st', out)) :
+    ∃ stH sH, StBk st stH e.session ∧ AMap.get stH.sessions e.session = some sH ∧ Session.Bk s sH ∧
+      GPInv stH ∧
+      ∀ o ∈ out, ToOnly e.session o ∨ ∃ m, parseMessage e.data = some m ∧
+        ((s.server = false ∧ ClientLine stH e.session sH m o) ∨ (s.server = true ∧ ServiceLine stH e.session sH m o)) := by
+  cases hsrv : s.server with
+  | false =>
+    obtain ⟨stH, sH, h1, h2, h3, h4, h5⟩ := C12_entry_client h he ht hs hsrv hr
+    refine ⟨stH, sH, h1, h2, h3, h4, fun o ho => ?_⟩
+    rcases h5 o ho with h6 | ⟨m, hm, h6⟩
+    · exact Or.inl h6
+    · exact Or.inr ⟨m, hm, Or.inl ⟨rfl, h6⟩⟩
+  | true =>
+    obtain ⟨stH, sH, h1, h2, h3, h4, h5⟩ := C12_entry_services h he ht hs hsrv hr
+    refine ⟨stH, sH, h1, h2, h3, h4, fun o ho => ?_⟩
+    rcases h5 o ho with h6 | ⟨m, hm, h6⟩
+    · exact Or.inl h6
+    · exact Or.inr ⟨m, hm, Or.inr ⟨rfl, h6⟩⟩
+
+/-- … for all histories: in every reachable state the classification applies to the next entry of a services link -/
+theorem C12_history_services {es : List Entry} {st st' : St} {e : Entry} {out : List Out} {s : Session}
+    (hw : WfHistory {} es) (hrun : runEntries {} es = .ok st) (he : EntryOk st e) (ht : e.type = 2)
+    (hs : AMap.get st.sessions e.session = some s) (hsrv : s.server = true)
+    (hr : applyEntry st e = .ok (st', out)) :
+    ∃ stH sH, StBk st stH e.session ∧ AMap.get stH.sessions e.session = some sH ∧ Session.Bk s sH ∧
+      GPInv stH ∧
+      ∀ o ∈ out, ToOnly e.session o ∨ ∃ m, parseMessage e.data = some m ∧ ServiceLine stH e.session sH m o :=
+  C12_entry_services (C12_identity_reachable hw hrun) he ht hs hsrv hr
+
+/-- … and, client or services link alike, for all histories -/
+theorem C12_history_all {es : List Entry} {st st' : St} {e : Entry} {out : List Out} {s : Session}
+    (hw : WfHistory {} es) (hrun : runEntries {} es = .ok st) (he : EntryOk st e) (ht : e.type = 2)
+    (hs : AMap.get st.sessions e.session = some s)
+    (hr : applyEntry st e = .ok (st', out)) :
+    ∃ stH sH, StBk st stH e.session ∧ AMap.get stH.sessions e.session = some sH ∧ Session.Bk s sH ∧
+      GPInv stH ∧
+      ∀ o ∈ out, ToOnly e.session o ∨ ∃ m, parseMessage e.data = some m ∧
+        ((s.server = false ∧ ClientLine stH e.session sH m o) ∨ (s.server = true ∧ ServiceLine stH e.session sH m o)) :=
+  C12_entry_all (C12_identity_reachable hw hrun) he ht hs hr
+
+/-- the same one level below `applyEntry`, on an already parsed line -/
+theorem C12_processMessage_services {st : St} {c' : Ctx} {e : Entry} {im : Option IrcMsg} {s : Session}
+    (h : GPInv st) (hr0 : e.session.reply = 0) (hs : AMap.get st.sessions e.session = some s)
+    (hsrv : s.server = true) (hr : processMessage { st := st, msgid := e.id } e im = .ok c') :
+    ∃ stH sH, StBk st stH e.session ∧ AMap.get stH.sessions e.session = some sH ∧ Session.Bk s sH ∧
+      GPInv stH ∧
+      ∀ o ∈ c'.out, ToOnly e.session o ∨ ∃ m, im = some m ∧ ServiceLine stH e.session sH m o :=
+  processMessage_services_lines h hr0 hs hsrv hr
+
+/-! non-vacuity on `exSt2` (alice = 1, Bob = 2 and ChanServ = pseudo-client of link 9 on `#c`; carol = 3 on no channel;
+dave = 4 and NickServ on `#d`; 9 is also the services link).  carol and dave never receive a `#c` notification.
+(The kernel cannot evaluate `cmdServerTopic` — string-to-integer conversion — and the no-prefix `QUIT` — a
+well-founded merge sort — so these two are not among the evaluated instances.) -/
+example : Pre exCtx2 ⟨9, 0⟩ := exPre2
+example : exServ.server = true := rfl
+/-- ChanServ kicks Bob from `#c`: alice, Bob, ChanServ (via link 9) and the services link -/
+example : rcpts (cmdServerKick exCtx2 ⟨9, 0⟩ ⟨exCS, "KICK", ["#c", "bob", "bye"]⟩) = some [[1, 2, 9, 9]] := by decide
+/-- ChanServ joins `#d` (dave, NickServ, ChanServ) and the new channel `#new` (ChanServ only) -/
+example : rcpts (cmdServerJoin exCtx2 ⟨9, 0⟩ ⟨exCS, "JOIN", ["#d,#new"]⟩) = some [[4, 9, 9], [9]] := by decide
+/-- ChanServ parts `#c` (alice, Bob, ChanServ); it is not on `#d`: 442 to the services link -/
+example : rcpts (cmdServerPart exCtx2 ⟨9, 0⟩ ⟨exCS, "PART", ["#c,#d"]⟩) = some [[1, 2, 9], [9]] := by decide
+example : rcpts (cmdServerMode exCtx2 ⟨9, 0⟩ ⟨exCS, "MODE", ["#c", "+o", "bob"]⟩) = some [[1, 2, 9]] := by
+  decide +kernel
+/-- 341 to the link, INVITE to carol, NOTICE to the members of `#c` -/
+example : rcpts (cmdServerInvite exCtx2 ⟨9, 0⟩ ⟨exCS, "INVITE", ["carol", "#c"]⟩) = some [[9], [3], [1, 2, 9]] := by
+  decide
+/-- carol is joined to `#c`: JOIN to the members and carol, SJOIN to the link, 331/353/366 to carol -/
+example : rcpts (cmdServerSvsjoin exCtx2 ⟨9, 0⟩ ⟨exCS, "SVSJOIN", ["carol", "#c"]⟩) =
+    some [[1, 2, 9, 3], [9], [3], [3], [3]] := by decide
+example : rcpts (cmdServerSvspart exCtx2 ⟨9, 0⟩ ⟨exCS, "SVSPART", ["bob", "#c"]⟩) = some [[1, 2, 9, 9]] := by decide
+/-- Bob is renamed: Bob, the members of `#c` (alice, ChanServ, Bob — re-keyed to the end of the member map), the link -/
+example : rcpts (cmdServerSvsnick exCtx2 ⟨9, 0⟩ ⟨exCS, "SVSNICK", ["bob", "Robert"]⟩) = some [[2, 1, 9, 2, 9]] := by
+  decide
+example : rcpts (cmdServerSvsmode exCtx2 ⟨9, 0⟩ ⟨exCS, "SVSMODE", ["bob", "+r"]⟩) = some [[2]] := by decide +kernel
+/-- dave is killed: KILL to dave; QUIT to the members of `#d` (dave, NickServ) and the link -/
+example : rcpts (cmdServerKill exCtx2 ⟨9, 0⟩ ⟨exCS, "KILL", ["dave", "spam"]⟩) = some [[4], [4, 9, 9]] := by decide
+/-- ChanServ quits: the members of `#c` -/
+example : rcpts (cmdServerQuit exCtx2 ⟨9, 0⟩ ⟨exCS, "QUIT", ["bye"]⟩) = some [[1, 2, 9]] := by decide
+/-- a nickname that is taken: 433 to the link -/
+example : rcpts (cmdServerNick exCtx2 ⟨9, 0⟩ ⟨none, "NICK", ["alice", "1", "1", "services", "h", "s", "0", "Service"]⟩) =
+    some [[9]] := by decide
+example : rcpts (cmdServerSvshold exCtx2 ⟨9, 0⟩ ⟨exCS, "SVSHOLD", ["bob"]⟩) = some [] := by decide
+/-- a whole services command through `processMessage` (gate, `server_KICK` lookup, handler) -/
+example : rcpts (processMessage exCtx2 { exEntry 9 "" with session := ⟨9, 0⟩ } (some ⟨exCS, "kick", ["#c", "bob", "bye"]⟩))
+    = some [[1, 2, 9, 9]] := by decide
+
+/-- the theorem applied to the example: whatever ChanServ's `KICK #c bob` produces, carol (3) and dave (4) are not
+among the recipients of any line -/
+example (c' : Ctx) (hr : cmdServerKick exCtx2 ⟨9, 0⟩ ⟨exCS, "KICK", ["#c", "bob", "bye"]⟩ = .ok c') :
+    ∀ o ∈ c'.out, 3 ∉ o.rcpt ∧ 4 ∉ o.rcpt := by
+  intro o ho
+  have key : ∀ n, n ∈ o.rcpt → n = 1 ∨ n = 2 ∨ n = 9 := by
+    intro n hn
+    have hline := (C12_services_kick exSt2_inv hr).elim (new := c'.out) (by simp [exCtx2]) o ho
+    have hmem : ∀ e ∈ exSt2.sessions, chanToLower "#c" ∈ e.2.channels → e.1.id = 1 ∨ e.1.id = 2 ∨ e.1.id = 9 := by
+      decide
+    cases hline with
+    | reply h =>
+      rw [h] at hn
+      exact Or.inr (Or.inr (by simpa [exCtx2, exSt2] using hn))
+    | relay chn target pn ch tid hp0 hp1 hc ht hton hpn hd hrc =>
+      have hchn : chn = "#c" := by
+        have : (["#c", "bob", "bye"] : List String)[0]? = some chn := hp0
+        simpa using this.symm
+      subst hchn
+      rcases hrc.sound hn with ⟨id, ⟨s, hs, hl⟩, he⟩ | h
+      · rw [← he]; exact hmem _ (AMap.mem_of_get hs) hl
+      · exact Or.inr (Or.inr (by simpa [exCtx2, exSt2] using h))
+  refine ⟨fun h => ?_, fun h => ?_⟩ <;> (rcases key _ h with h | h | h <;> cases h)
 
 end Robust.Props.C12
